@@ -26,7 +26,7 @@ func main() {
 	repo := fs.String("repo", envOr("VERIF_REPO", "/repo"), "repository root")
 	verif := fs.String("verif", envOr("VERIF_DIR", "/verif"), "verif root")
 	only := fs.String("harness", "", "run only this harness")
-	jobs := fs.Int("j", 12, "parallel harnesses")
+	jobs := fs.Int("j", 14, "parallel solver slots")
 	verbose := fs.Bool("v", false, "verbose")
 	noReplay := fs.Bool("no-native-replay", false, "skip native replay of candidates")
 	dump := fs.String("dump-smt", "", "directory for solver transcripts")
@@ -136,12 +136,11 @@ func check(cfg *Config, prop string, writeEvidence bool) int {
 	sem := make(chan struct{}, cfg.Jobs)
 	var ldMu sync.Mutex
 	_ = ldMu
-	perH := cfg.Jobs / len(hs)
-	if perH < 1 {
-		perH = 1
-	}
+	pathSlots = make(chan struct{}, cfg.Jobs)
+	sem = make(chan struct{}, len(hs)+1)
 	for i, h := range hs {
-		h.Workers = perH
+		h.Workers = cfg.Jobs
+		h.RunTier = cfg.Tier
 		wg.Add(1)
 		sem <- struct{}{}
 		go func(i int, h *Harness) {
